@@ -348,6 +348,11 @@ def path_conditions(module, func, target):
                     conds.append((parent.test, field == 'body', 'branch'))
                 elif isinstance(parent, ast.While) and field == 'body':
                     conds.append((parent.test, True, 'loop-test'))
+        if isinstance(parent, (ast.ListComp, ast.SetComp, ast.DictComp, ast.GeneratorExp)) and \
+                not any(node is g for g in parent.generators):
+            for g in parent.generators:
+                for c in g.ifs:
+                    conds.append((c, True, 'branch'))
         if isinstance(parent, ast.IfExp):
             if node is parent.body:
                 conds.append((parent.test, True, 'branch'))
